@@ -113,6 +113,33 @@ pub fn build_src(s: &Src, env: &Env) -> Bx {
 pub fn build(node: &Node, env: &Env) -> Bx {
   match node {
     Node::Src(s) => build_src(s, env),
+    Node::Un(Un::TrackLive, _, inner) => {
+      let (inner, env2, cn, cn2) = ((**inner).clone(), env.clone(), env.counters.clone(), env.counters.clone());
+      let done = sh(false);
+      let done2 = done.clone();
+      let d = TrackOp {
+        source: observable::defer(move || {
+          {
+            let mut c = lock!(cn);
+            c.live += 1;
+            c.track_subscribes += 1;
+            c.max_live = c.max_live.max(c.live);
+          }
+          build(&inner, &env2)
+        }),
+        cn: env.counters.clone(),
+        done,
+      };
+      // unsubscription path (terminals are counted by TrackObs *before* they are forwarded)
+      let f = move || {
+        let mut d = lock!(done2);
+        if !*d {
+          *d = true;
+          lock!(cn2).live -= 1;
+        }
+      };
+      sendonly!(bx(d.finalize(f)), bx(d.finalize_threads(f)))
+    }
     Node::Un(op, tf, inner) => {
       let s = build(inner, env);
       let tf = *tf;
@@ -195,6 +222,7 @@ pub fn build(node: &Node, env: &Env) -> Bx {
           let k = *k;
           bx(s.on_error_map(move |e: E| E(e.0.wrapping_add(k))))
         }
+        Un::TrackLive => unreachable!(),
         Un::OnError => {
           let cn = env.counters.clone();
           bx(s.on_error(move |_e: E| lock!(cn).on_error_calls += 1).on_error_map(inf as InfFn))
@@ -273,6 +301,55 @@ pub fn build(node: &Node, env: &Env) -> Bx {
     }
   }
 }
+
+/// subscription tracker: an inner observable stops counting as subscribed the
+/// moment it delivers its terminal (before the terminal is forwarded downstream)
+pub struct TrackOp<S> {
+  source: S,
+  cn: Sh<Counters>,
+  done: Sh<bool>,
+}
+pub struct TrackObs<O> {
+  o: O,
+  cn: Sh<Counters>,
+  done: Sh<bool>,
+}
+impl<O> TrackObs<O> {
+  fn finish(&self) {
+    let mut d = lock!(self.done);
+    if !*d {
+      *d = true;
+      lock!(self.cn).live -= 1;
+    }
+  }
+}
+impl<O: Observer<V, E>> Observer<V, E> for TrackObs<O> {
+  fn next(&mut self, v: V) {
+    self.o.next(v)
+  }
+  fn error(self, e: E) {
+    self.finish();
+    self.o.error(e)
+  }
+  fn complete(self) {
+    self.finish();
+    self.o.complete()
+  }
+  fn is_finished(&self) -> bool {
+    self.o.is_finished()
+  }
+}
+impl<S, O> Observable<V, E, O> for TrackOp<S>
+where
+  O: Observer<V, E>,
+  S: Observable<V, E, TrackObs<O>>,
+{
+  type Unsub = S::Unsub;
+  fn actual_subscribe(self, o: O) -> Self::Unsub {
+    self.source.actual_subscribe(TrackObs { o, cn: self.cn, done: self.done })
+  }
+}
+impl<S> ObservableExt<V, E> for TrackOp<S> {}
 
 // ------------------------------------------------------------- probe -------
 
